@@ -10,6 +10,7 @@ import (
 	"math/rand"
 	"net"
 	"os"
+	"sort"
 	"strings"
 	"testing"
 	"testing/synctest"
@@ -274,6 +275,7 @@ func (h *h2Hist) goodPeer(c *h2Client, bound bool) *net.UDPAddr {
 			}
 		}
 		if ps := a.ListPermissions(); len(ps) > 0 {
+			sort.Slice(ps, func(i, j int) bool { return ps[i].Addr.String() < ps[j].Addr.String() }) // map order is random
 			u, _ := ps[h.rng.Intn(len(ps))].Addr.(*net.UDPAddr)
 			var cands []*net.UDPAddr
 			for _, p := range h.peers {
@@ -649,7 +651,7 @@ func (h *h2Hist) opPeerData() {
 		return
 	}
 	p := h.peers[h.rng.Intn(len(h.peers))]
-	for _, c := range h.w.clients {
+	for _, c := range h.w.sortedClients() {
 		if a := h.live(c); a != nil && canonAddr(a.RelayAddr) == rs {
 			p = h.goodPeer(c, h.rng.Intn(2) == 0)
 		}
@@ -676,7 +678,12 @@ func (h *h2Hist) opAdvance() {
 	}
 	h.do(fmt.Sprintf("adv %d", int64(dt)), func() { time.Sleep(dt) })
 	// forget relays of allocations that are gone
+	var rkeys []string
 	for r := range h.relays {
+		rkeys = append(rkeys, r)
+	}
+	sortStrings(rkeys)
+	for _, r := range rkeys {
 		if _, ok := h.w.n.udp[parseCanon(r).String()]; !ok {
 			if _, ok2 := h.w.n.lis[(&net.TCPAddr{IP: parseCanon(r).IP, Port: parseCanon(r).Port}).String()]; !ok2 {
 				if h.rng.Intn(2) == 0 {
@@ -719,7 +726,7 @@ func (h *h2Hist) opRelayErr() {
 
 func (h *h2Hist) opCtrlClose() {
 	var cs []*h2Client
-	for _, c := range h.w.clients {
+	for _, c := range h.w.sortedClients() {
 		if c.conn != nil && !c.isData {
 			cs = append(cs, c)
 		}
@@ -876,7 +883,7 @@ func runH2History(t *testing.T, vt *vhT, seed int64, nOps int) {
 			h.do("close", func() { _ = w.srv.Close() })
 			h.closed = true
 			// C15 monitor: after Server.Close nothing should be served any more
-			for _, c := range w.clients {
+			for _, c := range w.sortedClients() {
 				if c.conn != nil && !c.isData {
 					before := len(c.rawbuf)
 					h.opBinding(c)
